@@ -32,15 +32,25 @@ def applyTimestamp (s1 : U.St) (setTs : Option (Ts × Bool)) : U.St :=
     | some (id, _) => s1.setVal id (.timestamp ts)
     | none => if addIfMissing then s1.append s1.top (.timestamp ts) else s1
 
+/-- the OpenPGP side of an update: `--sign` / `--no-sign` / neither, whether the top-level Manifest was
+    loaded with a verified signature, whether gpg can sign with the selected key -/
+structure SignCfg where
+  opt : Option Bool := none
+  topSigned : Bool := false
+  keyUsable : Bool := true
+deriving Repr
+
 /-- `UpdateCommand.__call__` / `CreateCommand.__call__` for one path: open the
     loader, scan (`update_entries_for_directory`), refresh the TIMESTAMP, save.
     All file-system writes are in the result of the save step. -/
 def updateCommand (w : L1.World) (post : Str → Option L1.FileMeta) (top path : Str) (create : Bool)
-    (prof : Prof.Profile) (xdev : Bool) (o : U.Opts) (setTs : Option (Ts × Bool)) (so : U.SaveOpts) (doSave : Bool) :
+    (prof : Prof.Profile) (xdev : Bool) (o : U.Opts) (setTs : Option (Ts × Bool)) (so : U.SaveOpts) (doSave : Bool)
+    (sign : SignCfg := {}) :
     Except L1.Err (U.St × List U.Write) :=
   match U.openForUpdate w top create prof xdev with
   | .error e => .error e
-  | .ok s =>
+  | .ok s0 =>
+    let s : U.St := { s0 with signOpt := sign.opt, topSigned := sign.topSigned, keyUsable := sign.keyUsable }
     match U.updateDir w s path o with
     | .error e => .error e
     | .ok s1 =>
